@@ -176,6 +176,9 @@ func (r *ongoingTxKeyReader) Reset() error {
 		return ErrMVCCReadSetLimitExceeded
 	}
 
+	// the offset applies again to the restarted scan, as in storeKeyReader
+	r.skipped = 0
+
 	r.expectedReader.expectedReads = append(r.expectedReader.expectedReads, nil)
 	r.expectedReader.i++
 
